@@ -478,7 +478,12 @@ class Module:
         if kind in ('alias', 'ifunc'):
             t = parse_type(p)
             p.expect(',')
-            tv = parse_typed_value(p)
+            if p.peek()[1] in ('bitcast', 'getelementptr', 'addrspacecast', 'inttoptr'):
+                # aliasee given as a constant expression without a leading type
+                pt = ('ptr', t)
+                tv = (pt, parse_value(p, pt))
+            else:
+                tv = parse_typed_value(p)
             self.aliases[name] = (t, tv)
             return
         g.constant = kind == 'constant'
